@@ -30,6 +30,8 @@ def rd(p): return open(os.path.join(REPO, p)).read()
 
 def norm(s): return ' '.join(s.split())
 
+def _no_arg(fn): raise TranslateError("%s: two-argument form not expected here" % fn)
+
 PART_FIELDS = ['value', 'sender_intended_value', 'timer_ticks', 'total_value_received', 'cltv_expiry',
                'counterparty_skimmed_fee_msat']
 
@@ -103,7 +105,7 @@ def main(out_path):
     op = rd('lightning/src/ln/onion_payment.rs')
     L = ['/- GENERATED by tools/gen_inbound.py from lightning/src/ln/channelmanager.rs and onion_payment.rs — do not edit.',
          '   The per-part amount decisions of the inbound MPP accumulator (C04), translated. -/',
-         'import LdkModel.Prim.Arith', 'import LdkModel.Generated.Consts', 'set_option linter.unusedVariables false', 'namespace Ldk.MppGen', 'open Ldk', '']
+         'import LdkModel.Prim.Arith', 'import LdkModel.Generated.Consts', 'import LdkModel.Generated.Timing', 'set_option linter.unusedVariables false', 'namespace Ldk.MppGen', 'open Ldk', '']
 
     # ---- the part ---------------------------------------------------------------------------------
     mp = struct_fields(cm, r'pub\(super\) struct MppPart')
@@ -256,6 +258,118 @@ def main(out_path):
           'def eventSkim (htlcs : List PartG) : Nat :=', '  ' + emitter(fe).e(parse_expr(sk)), '',
           '/-- `total_sender_intended` of the same arm (only debug_asserted against the two above): `%s` -/' % lets['total_sender_intended'],
           'def eventIntended (htlcs : List PartG) : Nat :=', '  ' + emitter(fe).e(parse_expr(lets['total_sender_intended'])), '']
+    # PaymentClaimable.claim_deadline: `Some(match <E over claimable_payment.htlcs> { Some(x) => x, None => { debug_assert!(..); htlc_expiry } } <tail>)`
+    m = re.search(r'let claim_deadline = Some\(\s*match\s+([^{}]+?)\s*\{', arm)
+    if not m: raise TranslateError("handle_claimable_htlc: `let claim_deadline = Some(match .. {` not found")
+    sel = norm(m.group(1))
+    j = match_brace(arm, m.end() - 1)
+    arms = norm(arm[m.end():j - 1])
+    ma = re.fullmatch(r'Some\((\w+)\) => (\w+), None => \{ debug_assert!\(false, "[^"]*"\); (\w+) \},?', arms)
+    if not ma or ma.group(1) != ma.group(2):
+        raise TranslateError("handle_claimable_htlc: claim_deadline match arms changed: %r" % arms)
+    dflt = ma.group(3)
+    if dflt != 'htlc_expiry' or not re.search(r'let htlc_expiry = claimable_htlc\.mpp_part\.cltv_expiry;', b[:i]):
+        raise TranslateError("handle_claimable_htlc: claim_deadline fallback is no longer the new part's cltv_expiry (%s)" % dflt)
+    mt = re.match(r'\s*([^;]*?),?\s*\)\s*;', arm[j:], re.S)
+    if not mt: raise TranslateError("handle_claimable_htlc: claim_deadline tail not recognised: %r" % arm[j:j + 60])
+    tail = norm(mt.group(1))
+    check_part_fields(sel, 'handle_claimable_htlc claim_deadline')
+    check_vars(sel.replace('claimable_payment.htlcs', 'htlcs'), {'htlcs'}, 'PaymentClaimable claim_deadline')
+    check_vars(tail, set(), 'PaymentClaimable claim_deadline tail')
+    # Iterator::min()/max() (no argument) and slice first()/last() give Options; u32 arithmetic of the tail: plain `-` is Nat
+    # subtraction (a u32 underflow would need cltv_expiry < HTLC_FAIL_BACK_BUFFER, which the final-hop expiry check excludes)
+    emd = emitter(fe)
+    for nm, fn in (('min', 'List.min?'), ('max', 'List.max?'), ('first', 'List.head?'), ('last', 'List.getLast?')):
+        emd.methods[nm] = (lambda fn: lambda recv, args: ('(%s %s)' % (fn, recv)) if not args else _no_arg(fn))(fn)
+    L += ['/-- PaymentClaimable.claim_deadline, the scrutinee: `%s` -/' % sel,
+          'def eventMinCltv (htlcs : List PartG) : Option Nat :=', '  ' + emd.e(parse_expr(sel)), '',
+          '/-- PaymentClaimable.claim_deadline (translated): `match %s { %s } %s` where `htlc_expiry` is the new part\'s cltv_expiry -/' % (sel, arms, tail),
+          'def eventClaimDeadline (htlcs : List PartG) (htlc_expiry : Nat) : Nat :=',
+          '  let sel := match eventMinCltv htlcs with',
+          '    | some claim_deadline => claim_deadline',
+          '    | none => htlc_expiry',
+          '  ' + emitter().e(parse_expr('sel ' + tail)), '']
+
+    # ---- handle_claimable_htlc: the gates in front of check_incoming_mpp_part, and check_merge ------------
+    # order of the statements of handle_claimable_htlc (positions in the comment-stripped body `b`)
+    g1 = re.search(r'if\s+([^{}]+?)\s*\{\s*return Err\(\(\)\);\s*\}', b)
+    if not g1 or 'pending_claiming_payments' not in g1.group(1): raise TranslateError("handle_claimable_htlc: the pending_claiming_payments gate is no longer the first test")
+    ent = re.search(r'claimable_payments\.claimable_payments\.entry\(payment_hash\)\.or_insert_with\(\|\|\s*\{\s*first_claimable_htlc = true;\s*ClaimablePayment\s*\{\s*purpose: purpose\.clone\(\),\s*htlcs: Vec::new\(\),\s*onion_fields: onion_fields\.clone\(\),\s*\}\s*\}\)', b)
+    if not ent: raise TranslateError("handle_claimable_htlc: the entry is no longer created from the first part's purpose / onion_fields")
+    g2 = re.search(r'if\s+(purpose\s*[!=]=\s*claimable_payment\.purpose|claimable_payment\.purpose\s*[!=]=\s*purpose)\s*\{', b)
+    if not g2: raise TranslateError("handle_claimable_htlc: purpose comparison not found")
+    g2end = match_brace(b, g2.end() - 1)
+    if not re.search(r'return Err\(\(\)\);\s*\}$', b[g2.end():g2end]): raise TranslateError("handle_claimable_htlc: the purpose test no longer returns Err(())")
+    g3 = re.search(r'match self\.check_incoming_mpp_part\(\s*&mut claimable_payment\.htlcs,\s*&mut claimable_payment\.onion_fields,\s*claimable_htlc,\s*onion_fields,\s*payment_hash,?\s*\)\s*\{', b)
+    if not g3: raise TranslateError("handle_claimable_htlc: call of check_incoming_mpp_part changed")
+    if not (g1.start() < ent.start() < g2.start() < g3.start()): raise TranslateError("handle_claimable_htlc: order pending-claim gate / entry / purpose test / check_incoming_mpp_part changed")
+    if re.search(r'return\s+(Ok|Err)', b[g1.end():g2.start()]) or re.search(r'return\s+(Ok|Err)', b[g2end:g3.start()]):
+        raise TranslateError("handle_claimable_htlc: an extra early return appeared in front of check_incoming_mpp_part")
+    k = b.index('{', b.find('Err(()) =>', g3.end()))
+    if not re.fullmatch(r'\{\s*debug_assert!\(!first_claimable_htlc\);\s*Err\(\(\)\)\s*\}', b[k:match_brace(b, k)]) or not re.search(r'Ok\(false\) => Ok\(\(\)\),', b[g3.end():]):
+        raise TranslateError("handle_claimable_htlc: Ok(false) / Err arms changed")
+    c1 = norm(g1.group(1)); c2 = norm(g2.group(1))
+    check_vars(c1, {'claimable_payments', 'payment_hash'}, 'handle_claimable_htlc pending-claim gate')
+    em1 = Emitter(methods={'contains_key': lambda recv, args: 'pending_claiming_contains'}, narrow=lambda t: False)
+    em2 = Emitter(fields={'claimable_payment.purpose': 'entry_purpose'}, narrow=lambda t: False)
+    L += ['/-- handle_claimable_htlc, first test: `if %s { return Err(()); }` (pending_claiming_contains: the hash is being claimed) -/' % c1,
+          'def pendingClaimRefuses (pending_claiming_contains : Bool) : Bool :=', '  ' + em1.e(parse_expr(c1)), '',
+          '/-- handle_claimable_htlc, second test: `if %s { .. return Err(()); }` (entry_purpose: the purpose the FIRST part of the entry arrived with) -/' % c2,
+          'def purposeMismatch (purpose entry_purpose : Nat) : Bool :=', '  ' + em2.e(parse_expr(c2)), '']
+
+    # RecipientOnionFields::check_merge (outbound_payment.rs)
+    obp = rd('lightning/src/ln/outbound_payment.rs')
+    params, _, body = find_fn(obp, 'check_merge')
+    if norm(params) != '&mut self, further_htlc_fields: &mut Self': raise TranslateError("check_merge signature changed: %s" % norm(params))
+    cb = norm(strip_comments(body))[1:-1].strip()
+    tests = []
+    while True:
+        mm = re.match(r'if ([^{}]+?) \{ return Err\(\(\)\);? \} ?', cb)
+        if not mm: break
+        tests.append(mm.group(1)); cb = cb[mm.end():]
+    want_f = ['payment_secret', 'payment_metadata', 'total_mpp_amount_msat']
+    if len(tests) != 3: raise TranslateError("check_merge: expected 3 leading field tests, found %d" % len(tests))
+    for t, f in zip(tests, want_f):
+        if not re.fullmatch(r'(self|further_htlc_fields)\.%s\s*\S+\s*(self|further_htlc_fields)\.%s' % (f, f), t) or t.count('self.') != 1:
+            raise TranslateError("check_merge: test on %s changed: %r" % (f, t))
+    rest_re = (r'let tlvs = &mut self\.custom_tlvs; let further_tlvs = &mut further_htlc_fields\.custom_tlvs; '
+               r'let even_tlvs = tlvs\.iter\(\)\.filter\(\|\((\w+), _\)\| (.+?)\); '
+               r'let further_even_tlvs = further_tlvs\.iter\(\)\.filter\(\|\((\w+), _\)\| (.+?)\); '
+               r'if (even_tlvs|further_even_tlvs)\.(ne|eq)\((even_tlvs|further_even_tlvs)\) \{ return Err\(\(\)\);? \} '
+               r'tlvs\.retain\(\|tlv\| further_tlvs\.iter\(\)\.any\(\|further_tlv\| (.+?)\)\); '
+               r'further_tlvs\.retain\(\|further_tlv\| tlvs\.iter\(\)\.any\(\|tlv\| (.+?)\)\); Ok\(\(\)\)')
+    mr = re.fullmatch(rest_re, cb)
+    if not mr: raise TranslateError("check_merge: the custom-TLV part changed: %r" % cb[:200])
+    v1, p1, v2, p2, lhs, cmpop, rhs, keep1, keep2 = mr.groups()
+    if lhs == rhs: raise TranslateError("check_merge compares %s with itself" % lhs)
+    def tlv_pred(v, body_):
+        body_ = body_.replace('*' + v, v)
+        check_vars(body_, {v}, 'check_merge even-TLV predicate')
+        return '(fun (tlv : Nat × Nat) => let %s := tlv.1; %s)' % (v, Emitter(narrow=lambda t: False).e(parse_expr(body_)))
+    for kx in (keep1, keep2): check_vars(kx, {'tlv', 'further_tlv'}, 'check_merge retain')
+    eme = Emitter(narrow=lambda t: False)
+    L += ['/-- `RecipientOnionFields` as far as check_merge / begin_claiming_payment read it (payment_secret, payment_metadata: codes',
+          '    standing for the Option<..> values; custom_tlvs: (type, code of the value), strictly increasing types) -/',
+          'structure OnionG where',
+          '  payment_secret : Nat', '  payment_metadata : Nat', '  total_mpp_amount_msat : Nat', '  custom_tlvs : List (Nat × Nat)',
+          '  deriving DecidableEq, Repr', '',
+          '/-- outbound_payment.rs::RecipientOnionFields::check_merge, true = `Err(())` (translated tests, in source order):',
+          '    %s; even TLVs `%s` / `%s` compared with `.%s` -/' % ('; '.join('`%s`' % t for t in tests), p1, p2, cmpop),
+          'def checkMergeErr (self further_htlc_fields : OnionG) : Bool :=']
+    for t in tests: L.append('  if %s then true else' % eme.e(parse_expr(t)))
+    L += ['  let tlvs := self.custom_tlvs',
+          '  let further_tlvs := further_htlc_fields.custom_tlvs',
+          '  let even_tlvs := List.filter %s tlvs' % tlv_pred(v1, p1),
+          '  let further_even_tlvs := List.filter %s further_tlvs' % tlv_pred(v2, p2),
+          '  decide (%s %s %s)' % (lhs, '≠' if cmpop == 'ne' else '=', rhs), '',
+          '/-- handle_claimable_htlc up to the verdict, in source order: pending-claim gate, purpose test (against the entry the FIRST',
+          '    part created), then check_incoming_mpp_part = check_merge + the amount decisions; `Err(())` = .reject (the new HTLC is failed back) -/',
+          'def handleClaimable (pending_claiming_contains : Bool) (purpose entry_purpose : Nat) (entry_fields onion_fields : OnionG)',
+          '    (htlc_set : List PartG) (new_htlc : PartG) : Verdict × List PartG :=',
+          '  if pendingClaimRefuses pending_claiming_contains then (.reject, htlc_set)',
+          '  else if purposeMismatch purpose entry_purpose then (.reject, htlc_set)',
+          '  else if checkMergeErr entry_fields onion_fields then (.reject, htlc_set)',
+          '  else checkIncomingMppPart htlc_set new_htlc entry_fields.total_mpp_amount_msat', '']
 
     # ---- claim_payment_internal ---------------------------------------------------------------------
     _, _, body = find_fn(cm, 'claim_payment_internal')
@@ -314,6 +428,18 @@ def main(out_path):
         raise TranslateError("ClaimingPayment.sender_intended_value is no longer the onion's total_mpp_amount_msat")
     if not re.search(r'sender_intended_value:\s*sender_intended_total_msat,', cm) or not re.search(r'events::Event::PaymentClaimed\s*\{\s*payment_hash,\s*purpose,\s*amount_msat,\s*receiver_node_id: Some\(receiver_node_id\),\s*htlcs,\s*sender_intended_total_msat,', cm):
         raise TranslateError("PaymentClaimed is no longer built from ClaimingPayment's amount_msat / htlcs / sender_intended_value")
+    me = re.search(r'let custom_tlvs = &payment\.onion_fields\.custom_tlvs;\s*if\s+(.+?)\s*\{\s*log_info!\(.*?\);\s*return Err\(payment\.htlcs\);\s*\}', b, re.S)
+    if not me: raise TranslateError("begin_claiming_payment: the unknown-even-TLV refusal changed")
+    ce = norm(me.group(1))
+    mce = re.fullmatch(r'(.*)custom_tlvs\.iter\(\)\.(any|all)\(\|\((\w+), _\)\| (.+?)\)', ce)
+    if not mce: raise TranslateError("begin_claiming_payment: unknown-even-TLV test not recognised: %r" % ce)
+    head, quant, tv, tbody = mce.groups()
+    check_vars(head, {'custom_tlvs_known'}, 'begin_claiming_payment even-TLV test'); check_vars(tbody.replace('*' + tv, tv), {tv}, 'begin_claiming_payment even-TLV predicate')
+    if me.start() > b.find('pending_claiming_payments'): raise TranslateError("begin_claiming_payment: the even-TLV refusal no longer precedes the pending_claiming_payments insertion")
+    eh = Emitter(narrow=lambda t: False)
+    L += ['/-- begin_claiming_payment: `if %s { .. return Err(payment.htlcs); }` (every HTLC is then failed with InvalidOnionPayload) -/' % ce,
+          'def claimRefusesUnknownEven (custom_tlvs_known : Bool) (custom_tlvs : List (Nat × Nat)) : Bool :=',
+          '  ' + eh.e(parse_expr(head + 'tlv_test'))[:-len('tlv_test)')] + '(List.%s custom_tlvs (fun (tlv : Nat × Nat) => let %s := tlv.1; %s)))' % (quant, tv, eh.e(parse_expr(tbody.replace('*' + tv, tv)))), '']
     L += ['/-- ClaimingPayment.amount_msat (= PaymentClaimed.amount_msat): `%s` -/' % amt,
           'def claimingAmount (htlcs : List PartG) : Nat :=', '  ' + emitter(fe).e(parse_expr(amt)), '']
     _, _, body = find_fn(cm, 'from', after='impl From<&ClaimableHTLC> for events::ClaimedHTLC')
@@ -368,6 +494,59 @@ def main(out_path):
           '    (amt_msat: amount of the HTLC; onion_amt_msat: amt_to_forward; allow_underpay: the channel\'s accept_underpaying_htlcs) -/',
           'def recvAmountTooLow (allow_underpay : Bool) (onion_amt_msat amt_msat : Nat) (counterparty_skimmed_fee_msat : Option Nat) : Bool :=',
           '  ' + emitter().e(parse_expr(cond)), '']
+
+    # ---- the fail-back sites of the accumulator: WHICH HTLCs are failed, with WHICH LocalHTLCFailureReason ---------
+    lcv = lambda n: n[0].lower() + n[1:]
+    mi = re.search(r'impl Into<LocalHTLCFailureReason> for FailureCode\s*\{', cm)
+    if not mi: raise TranslateError("impl Into<LocalHTLCFailureReason> for FailureCode not found")
+    ib = norm(strip_comments(cm[mi.end() - 1:match_brace(cm, mi.end() - 1)]))
+    code_map = dict((a, r_) for a, r_ in re.findall(r'FailureCode::(\w+)(?:\(_\))? => \{? ?LocalHTLCFailureReason::(\w+)', ib))
+    def via_code(c):
+        if c not in code_map: raise TranslateError("FailureCode::%s has no LocalHTLCFailureReason mapping" % c)
+        return code_map[c]
+    sites = []
+    # (1) a part refused by handle_claimable_htlc: the fail_htlc! macro of process_receive_htlcs
+    _, _, body = find_fn(cm, 'process_receive_htlcs')
+    pb = strip_comments(body)
+    mm = re.search(r'macro_rules! fail_htlc \{.*?HTLCFailReason::reason\(\s*LocalHTLCFailureReason::(\w+),\s*err_data,?\s*\)', pb, re.S)
+    if not mm: raise TranslateError("process_receive_htlcs: fail_htlc! macro changed")
+    if len(re.findall(r'if let Err\(\(\)\) = self\.handle_claimable_htlc\([^;{}]*\)\s*\{\s*fail_htlc!\(payment_hash\);\s*\}', pb)) != 2:
+        raise TranslateError("process_receive_htlcs: `if let Err(()) = self.handle_claimable_htlc(..) { fail_htlc!(..) }` no longer in both purpose arms")
+    sites.append(('reasonPartRefused', mm.group(1), 'process_receive_htlcs fail_htlc! (handle_claimable_htlc returned Err: only the NEW HTLC is failed)'))
+    # (2) MPP timeout: timer_tick_occurred fails EVERY HTLC of a timed-out entry and drops the entry
+    _, _, body = find_fn(cm, 'timer_tick_occurred')
+    tb = norm(strip_comments(body))
+    mt = re.search(r'self\.claimable_payments\.lock\(\)\.unwrap\(\)\.claimable_payments\.retain\( \|payment_hash, payment\| \{ if payment\.htlcs\.is_empty\(\) \{ debug_assert!\(false\); return false; \} '
+                   r'let mpp_timeout = check_mpp_timeout\( payment\.htlcs\.iter_mut\(\)\.map\(\|htlc\| &mut htlc\.mpp_part\), &payment\.onion_fields, \); '
+                   r'if mpp_timeout \{ timed_out_mpp_htlcs\.extend\(payment\.htlcs\.drain\(\.\.\)\.map\(\|h\| \{.*?\}\)\); \} return !mpp_timeout; \}, \);', tb)
+    if not mt: raise TranslateError("timer_tick_occurred: the claimable_payments MPP-timeout retain changed")
+    mt2 = re.search(r'for \(htlc_source, payment_hash, failure_type\) in timed_out_mpp_htlcs\.drain\(\.\.\) \{ let failure_reason = LocalHTLCFailureReason::(\w+); let reason = HTLCFailReason::from_failure_code\(failure_reason\);', tb)
+    if not mt2: raise TranslateError("timer_tick_occurred: failure reason of timed-out MPP HTLCs not found")
+    sites.append(('reasonMppTimeout', mt2.group(1), 'timer_tick_occurred (check_mpp_timeout returned true: ALL HTLCs of the entry are drained and failed, the entry is removed)'))
+    # (3) on-chain timeout: do_chain_event fails each HTLC whose own check_onchain_timeout(height) holds, keeps the others
+    mo = re.search(r'payment\.htlcs\.retain\(\|htlc\| \{ let htlc_timed_out = htlc\.mpp_part\.check_onchain_timeout\(height\); if htlc_timed_out \{ let reason = LocalHTLCFailureReason::(\w+); '
+                   r'timed_out_htlcs\.push\(\(.*?\)\); \} !htlc_timed_out \}\); !payment\.htlcs\.is_empty\(\)', norm(strip_comments(cm[cm.find('fn do_chain_event'):])))
+    if not mo: raise TranslateError("do_chain_event: the claimable_payments on-chain-timeout retain changed")
+    sites.append(('reasonOnchainTimeout', mo.group(1), 'do_chain_event (each HTLC with check_onchain_timeout(height) is failed, the others stay; an emptied entry is removed)'))
+    # (4) claim_funds: unknown even TLVs -> every HTLC failed with FailureCode::InvalidOnionPayload(None); (5) !valid_mpp -> every HTLC failed
+    _, _, body = find_fn(cm, 'claim_payment_internal')
+    cb2 = norm(strip_comments(body))
+    mc = re.search(r'Err\(htlcs\) => \{ for htlc in htlcs \{ let reason = self\.get_htlc_fail_reason_from_failure_code\( FailureCode::(\w+)(?:\(None\))?, &htlc, \);', cb2)
+    if not mc: raise TranslateError("claim_payment_internal: the Err(htlcs) arm (unknown even TLVs) changed")
+    sites.append(('reasonUnknownEvenTlv', via_code(mc.group(1)), 'claim_payment_internal, begin_claiming_payment returned Err(htlcs): FailureCode::%s' % mc.group(1)))
+    mc2 = re.search(r'\} else \{ for htlc in sources \{ let err_data = .*?let reason = HTLCFailReason::reason\( LocalHTLCFailureReason::(\w+), err_data, \);', cb2)
+    if not mc2: raise TranslateError("claim_payment_internal: the !valid_mpp arm changed")
+    sites.append(('reasonClaimInvalidMpp', mc2.group(1), 'claim_payment_internal, valid_mpp = false: every remaining HTLC is failed'))
+    # (6) fail_htlc_backwards
+    _, _, body = find_fn(cm, 'fail_htlc_backwards')
+    mf = re.fullmatch(r'\{ let failure_code = FailureCode::(\w+); self\.fail_htlc_backwards_with_reason\(payment_hash, failure_code\); \}', norm(strip_comments(body)))
+    if not mf: raise TranslateError("fail_htlc_backwards changed")
+    _, _, body = find_fn(cm, 'fail_htlc_backwards_with_reason')
+    if not re.search(r'claimable_payments\.remove\(payment_hash\); if let Some\(payment\) = removed_source \{ for htlc in payment\.htlcs \{ let reason = self\.get_htlc_fail_reason_from_failure_code\(failure_code, &htlc\);', norm(strip_comments(body))):
+        raise TranslateError("fail_htlc_backwards_with_reason changed")
+    sites.append(('reasonFailBack', via_code(mf.group(1)), 'fail_htlc_backwards = fail_htlc_backwards_with_reason(FailureCode::%s): every HTLC of the removed entry' % mf.group(1)))
+    for nm, var, doc in sites:
+        L += ['/-- %s: `LocalHTLCFailureReason::%s` -/' % (doc, var), 'def %s : FailReason := .%s' % (nm, lcv(var)), '']
 
     L.append('end Ldk.MppGen')
     text = '\n'.join(L) + '\n'
